@@ -11,6 +11,9 @@ PointSets ==
       square  |-> <<<<0,0,0>>, <<1,0,0>>, <<0,1,0>>, <<1,1,0>>>>,
       lshape  |-> <<<<0,0,0>>, <<2,0,0>>, <<0,2,0>>, <<2,2,0>>, <<1,1,0>>>>,
       cube5   |-> <<<<0,0,0>>, <<2,0,0>>, <<0,2,0>>, <<0,0,2>>, <<1,1,1>>>>,
+      cube2   |-> <<<<0,0,0>>, <<2,1,3>>>>,
+      cube3   |-> <<<<0,0,0>>, <<2,0,1>>, <<1,2,2>>>>,
+      cube4   |-> <<<<0,0,0>>, <<2,0,1>>, <<1,2,2>>, <<3,3,0>>>>,
       skew    |-> <<<<0,0,0>>, <<3,1,0>>, <<1,3,0>>, <<2,2,0>>>> ]
 MCPoints == PointSets[PSet]
 MCGW == <<4, 4, 4>>
